@@ -518,10 +518,13 @@ pub fn run_parent(fams: &[Family], cfg: &RunCfg, extra_args: &[String]) -> Resul
     let mut violations: Vec<J> = vec![];
     for k in 0..n {
         let p = cfg.workdir.join(format!("viol-{}.jsonl", k));
-        if let Ok(txt) = std::fs::read_to_string(&p) {
+        // a corrupted `str` handed out by the subject can put invalid UTF-8 into a message
+        if let Ok(raw) = std::fs::read(&p) {
+            let txt = String::from_utf8_lossy(&raw);
             for line in txt.lines() {
-                if let Ok(v) = serde_json::from_str::<J>(line) {
-                    violations.push(v);
+                match serde_json::from_str::<J>(line) {
+                    Ok(v) => violations.push(v),
+                    Err(e) => return Err(format!("unreadable violation record in {}: {e}", p.display())),
                 }
             }
         }
